@@ -13,12 +13,61 @@ pub uninterp spec fn tok_open(t: TokenReference) -> bool;
 pub uninterp spec fn tok_nl(t: TokenReference) -> bool;
 //   tok_lc(t)     the leading trivia of t hold a comment (printed directly in front of t, behind whatever precedes it)
 pub uninterp spec fn tok_lc(t: TokenReference) -> bool;
-pub uninterp spec fn unop_lc(u: UnOp) -> bool;
+pub open spec fn unop_lc(u: UnOp) -> bool { tok_lc(unop_tok(u)) }
 pub uninterp spec fn leaf_lc(e: Expression) -> bool;
-pub uninterp spec fn binop_open(b: BinOp) -> bool;
-pub uninterp spec fn binop_nl(b: BinOp) -> bool;
-pub uninterp spec fn unop_open(u: UnOp) -> bool;
-pub uninterp spec fn unop_nl(u: UnOp) -> bool;
+// an operator is its one token
+pub uninterp spec fn some_token() -> TokenReference;
+pub open spec fn binop_tok(b: BinOp) -> TokenReference {
+    match b {
+        BinOp::Or(t) => t, BinOp::And(t) => t, BinOp::LessThan(t) => t, BinOp::GreaterThan(t) => t, BinOp::LessThanEqual(t) => t,
+        BinOp::GreaterThanEqual(t) => t, BinOp::TildeEqual(t) => t, BinOp::TwoEqual(t) => t, BinOp::TwoDots(t) => t, BinOp::Plus(t) => t,
+        BinOp::Minus(t) => t, BinOp::Star(t) => t, BinOp::Slash(t) => t, BinOp::Percent(t) => t, BinOp::Caret(t) => t,
+        #[cfg(feature = "lua53")] BinOp::Pipe(t) => t,
+        #[cfg(feature = "lua53")] BinOp::Tilde(t) => t,
+        #[cfg(feature = "lua53")] BinOp::Ampersand(t) => t,
+        #[cfg(feature = "lua53")] BinOp::DoubleLessThan(t) => t,
+        #[cfg(feature = "lua53")] BinOp::DoubleGreaterThan(t) => t,
+        #[cfg(any(feature = "luau", feature = "lua53"))] BinOp::DoubleSlash(t) => t,
+        _ => some_token(),
+    }
+}
+pub open spec fn unop_tok(u: UnOp) -> TokenReference {
+    match u {
+        UnOp::Minus(t) => t, UnOp::Not(t) => t, UnOp::Hash(t) => t,
+        #[cfg(feature = "lua53")] UnOp::Tilde(t) => t,
+        _ => some_token(),
+    }
+}
+// the operators fmt_op! lists by name in format_binop (`>>` is handled by the closure it is given)
+pub open spec fn binop_listed(b: BinOp) -> bool {
+    match b {
+        BinOp::Or(_) => true, BinOp::And(_) => true, BinOp::LessThan(_) => true, BinOp::GreaterThan(_) => true, BinOp::LessThanEqual(_) => true,
+        BinOp::GreaterThanEqual(_) => true, BinOp::TildeEqual(_) => true, BinOp::TwoEqual(_) => true, BinOp::TwoDots(_) => true, BinOp::Plus(_) => true,
+        BinOp::Minus(_) => true, BinOp::Star(_) => true, BinOp::Slash(_) => true, BinOp::Percent(_) => true, BinOp::Caret(_) => true,
+        #[cfg(feature = "lua53")] BinOp::Pipe(_) => true,
+        #[cfg(feature = "lua53")] BinOp::Tilde(_) => true,
+        #[cfg(feature = "lua53")] BinOp::Ampersand(_) => true,
+        #[cfg(feature = "lua53")] BinOp::DoubleLessThan(_) => true,
+        #[cfg(any(feature = "luau", feature = "lua53"))] BinOp::DoubleSlash(_) => true,
+        _ => false,
+    }
+}
+// the text each operator is printed with — written from the Lua 5.4 manual §3.4 / the Luau grammar, with the spaces StyLua puts around it
+pub open spec fn binop_text(op: int) -> Seq<char> {
+    if op == OP_OR { " or "@ } else if op == OP_AND { " and "@ } else if op == OP_LT { " < "@ } else if op == OP_GT { " > "@ }
+    else if op == OP_LE { " <= "@ } else if op == OP_GE { " >= "@ } else if op == OP_NE { " ~= "@ } else if op == OP_EQ { " == "@ }
+    else if op == OP_CONCAT { " .. "@ } else if op == OP_PLUS { " + "@ } else if op == OP_MINUS { " - "@ } else if op == OP_STAR { " * "@ }
+    else if op == OP_SLASH { " / "@ } else if op == OP_PERCENT { " % "@ } else if op == OP_CARET { " ^ "@ } else if op == OP_PIPE { " | "@ }
+    else if op == OP_TILDE { " ~ "@ } else if op == OP_AMP { " & "@ } else if op == OP_SHL { " << "@ } else if op == OP_DSLASH { " // "@ }
+    else { " ? "@ }
+}
+pub open spec fn unop_text(op: int) -> Seq<char> {
+    if op == UN_MINUS { "-"@ } else if op == UN_NOT { "not "@ } else if op == UN_HASH { "#"@ } else if op == UN_TILDE { "~"@ } else { "?"@ }
+}
+pub open spec fn binop_open(b: BinOp) -> bool { tok_open(binop_tok(b)) }
+pub open spec fn binop_nl(b: BinOp) -> bool { tok_nl(binop_tok(b)) }
+pub open spec fn unop_open(u: UnOp) -> bool { tok_open(unop_tok(u)) }
+pub open spec fn unop_nl(u: UnOp) -> bool { tok_nl(unop_tok(u)) }
 // leaves of the expression tree (names, calls, tables, functions, literals): their own formatters are outside this unit
 pub uninterp spec fn leaf_open(e: Expression) -> bool;
 pub uninterp spec fn leaf_nl(e: Expression) -> bool;
@@ -102,5 +151,5 @@ pub open spec fn esafe(e: Expression) -> bool
         _ => leaf_safe(e),
     }
 }
-pub assume_specification [BinOp::token] (b: &BinOp) -> (r: &TokenReference) ensures tok_open(*r) == binop_open(*b), tok_nl(*r) == binop_nl(*b);
-pub assume_specification [UnOp::token] (b: &UnOp) -> (r: &TokenReference) ensures tok_open(*r) == unop_open(*b), tok_nl(*r) == unop_nl(*b);
+pub assume_specification [BinOp::token] (b: &BinOp) -> (r: &TokenReference) ensures *r == binop_tok(*b);
+pub assume_specification [UnOp::token] (b: &UnOp) -> (r: &TokenReference) ensures *r == unop_tok(*b);
